@@ -103,6 +103,54 @@ func verifNow() time.Time {
 
 func verifSince(t time.Time) time.Duration { return verifNow().Sub(t) }
 
+// ---------------------------------------------------------------------------------- stream loop hooks
+
+// snaprewrite puts verifLoopIdle(s) in front of the stream loop's select and verifLoopBusy(s) first in each
+// of its cases.  The loop of snapshotter s is at rest, having handled everything it was given, exactly when
+// busy == (number of things it was given: events, ticks, leave) and idle == busy+1.
+type verifLoopCount struct{ idle, busy int }
+
+var verifLoops = struct {
+	mu sync.Mutex
+	m  map[*Snapshotter]*verifLoopCount
+}{m: map[*Snapshotter]*verifLoopCount{}}
+
+func verifLoopOf(s *Snapshotter) *verifLoopCount {
+	c := verifLoops.m[s]
+	if c == nil {
+		c = &verifLoopCount{}
+		verifLoops.m[s] = c
+	}
+	return c
+}
+
+func verifLoopIdle(s *Snapshotter) {
+	verifLoops.mu.Lock()
+	verifLoopOf(s).idle++
+	verifLoops.mu.Unlock()
+}
+
+func verifLoopBusy(s *Snapshotter) {
+	verifLoops.mu.Lock()
+	verifLoopOf(s).busy++
+	verifLoops.mu.Unlock()
+}
+
+// VerifLoopCounts returns how often the stream loop of s arrived at its select and how often it left it.
+func VerifLoopCounts(s *Snapshotter) (idle, busy int) {
+	verifLoops.mu.Lock()
+	defer verifLoops.mu.Unlock()
+	c := verifLoopOf(s)
+	return c.idle, c.busy
+}
+
+// VerifLoopForget drops the bookkeeping of a snapshotter that is gone.
+func VerifLoopForget(s *Snapshotter) {
+	verifLoops.mu.Lock()
+	delete(verifLoops.m, s)
+	verifLoops.mu.Unlock()
+}
+
 // ---------------------------------------------------------------------------------- ticker
 
 type verifTicker struct {
